@@ -12,6 +12,8 @@ with tempfile.TemporaryDirectory() as d:
     env = dict(os.environ)
     env.pop("YADISM_VERIF", None)
     env["PYTHONPATH"] = os.path.join(repo, "src")
+    # keep hypothesis' example database out of the repository (a stored failing example would be replayed for ever)
+    env["HYPOTHESIS_STORAGE_DIRECTORY"] = os.path.join(d, "hypothesis")
     p = subprocess.run(
         ["/venv/bin/python", "-m", "pytest", "-ra", "-q", "-p", "no:cacheprovider", "--timeout=900",
          "--continue-on-collection-errors", f"--junitxml={xml}"],
